@@ -23,6 +23,7 @@
 mod graphwire;
 mod node;
 mod resp;
+mod tie;
 mod witness;
 
 use hx_common::*;
@@ -46,6 +47,27 @@ fn engine() -> String {
 pub fn opts_for(tag: &str) -> GenOpts {
     match tag {
         "safe" => GenOpts::safe(),
+        // the subset of the compiler-side model (OpsCover): no abstract types, pointers, special fields
+        "subset" => GenOpts {
+            pct_node_interface: 0,
+            pct_second_interface: 0,
+            pct_union: 0,
+            pct_pointer: 0,
+            pct_loadable: 0,
+            pct_special_fields: 0,
+            pct_expose_field: 0,
+            pct_var_in_object: 40,
+            pct_input_object: 80,
+            pct_field_args: 70,
+            pct_variable: 55,
+            pct_var_default: 50,
+            pct_optional_arg_given: 40,
+            max_decls: 7,
+            negative_ints: false,
+            strings: Alphabet::Word,
+            pct_empty_selection_set: 0,
+            ..GenOpts::default()
+        },
         "missingarg" => GenOpts { pct_field_args: 80, ..GenOpts::safe() },
         "objvar" => GenOpts { pct_var_in_object: 70, pct_input_object: 90, pct_field_args: 70, pct_variable: 60, ..GenOpts::default() },
         "risky" => GenOpts { strings: Alphabet::Risky, pct_field_args: 70, pct_variable: 20, ..GenOpts::default() },
@@ -83,7 +105,7 @@ fn tag_for(r: &mut Rng, engine: &str) -> &'static str {
             if k < 45 { "refetch" } else if k < 65 { "saferefetch" } else if k < 85 { "default" } else { "safe" }
         }
         "c10" => {
-            if k < 35 { "default" } else if k < 60 { "safe" } else if k < 80 { "refetch" } else if k < 90 { "saferefetch" } else { "objvar" }
+            if k < 25 { "default" } else if k < 40 { "safe" } else if k < 55 { "refetch" } else if k < 62 { "saferefetch" } else if k < 72 { "objvar" } else { "subset" }
         }
         _ => {
             if k < 38 { "default" } else if k < 56 { "safe" } else if k < 68 { "objvar" } else if k < 80 { "risky" } else if k < 94 { "refetch" } else { "missingarg" }
@@ -247,6 +269,9 @@ fn lines_for_case(engine: &str, i: u64, tag: &str, spec: &str, r: &mut Rng) -> V
         }
         "c10" => {
             lines.push(format!("casegraph\t{i}"));
+            for e in entrypoints.iter() {
+                lines.push(format!("c10m\t{i}\t{e}"));
+            }
             for e in entrypoints {
                 for shape in ["full", "random", "random", "sparse"] {
                     lines.push(format!("c10\t{i}\t{e}\t{}\t{shape}", r.next() % 1_000_000));
@@ -309,7 +334,7 @@ fn main() {
                     None => "bad-spec".to_string(),
                 }
             }
-            "c09" | "casegraph" | "c25" | "c10" => {
+            "c09" | "casegraph" | "c25" | "c10" | "c10m" => {
                 let Some(c) = current.as_mut() else { return "nocase".to_string() };
                 if !c.outcome.result.is_ok() {
                     return "notcompiled".to_string();
@@ -319,6 +344,19 @@ fn main() {
                     "c09" => c09_answer(c, n, f.get(2).copied().unwrap_or("")),
                     "casegraph" => graph_answer(c, n),
                     "c25" => c25_answer(c, n, f.get(2).copied().unwrap_or("")),
+                    "c10m" => {
+                        let entry = f.get(2).copied().unwrap_or("");
+                        let mut seg = entry.split('/');
+                        let (parent, name) = (seg.next().unwrap_or(""), seg.next().unwrap_or(""));
+                        match c.project.as_ref() {
+                            None => "out:no-project".to_string(),
+                            Some(_) if !["Query", "Mutation", "Subscription"].contains(&parent) => "out:non-root-entrypoint".to_string(),
+                            Some(p) => match tie::tie_wire(p, parent, name) {
+                                Ok(w) => format!("in\t{w}"),
+                                Err(why) => format!("out:{}", why.replace(['\t', ' '], "-")),
+                            },
+                        }
+                    }
                     _ => {
                         let values = ensure_values(c, n).clone();
                         let rtn = rt.get_or_insert_with(|| Node::spawn("ops_runtime.mjs", &["/repo/libs/isograph-react/src/core"]));
